@@ -203,6 +203,27 @@ def check_roundtrip(rng, rec):
             kind = next((sp["kind"] for sp in spec if sp["label"] == l), "?")
             rec.violation(f"history-restore-not-identity:{kind}", ctx, f"{l}: {a!r} -> {b!r} after ParameterHistory.append / set_from_history(0)")
             return spec
+    # a constraint released on the SAME object: the expression is removed, the parameter becomes free with a new value
+    exprs = [sp["label"] for sp in spec if sp["kind"] == "expr" and "expression" in sp]
+    if exprs:
+        l = exprs[0]
+        q = p.get(l)
+        newv = float(before[l]) * 1.37 + 0.5 if before[l] == before[l] else 1.5
+        q.expression = None
+        q.vary = True
+        q.value = newv
+        labels3, x3, _, _ = p.get_label_value_and_bounds_arrays(exclude_non_vary=True)
+        rec.count("released_expressions_checked")
+        if l not in labels3:
+            rec.violation("released-expression:not-free", ctx, f"{l}: expression removed and vary=True, but the optimiser vector has {labels3}")
+            return spec
+        if not (p.get(l).value == newv):
+            rec.violation("released-expression:value-overwritten", ctx, f"{l}: value set to {newv!r} after removing the expression, reads {p.get(l).value!r} after building the optimiser vector")
+            return spec
+        p.set_from_label_and_value_arrays(labels3, x3)
+        got = float(p.get(l).value)
+        if not (got == newv or abs(got - newv) <= 1e-9 * abs(newv)):
+            rec.violation("released-expression:roundtrip", ctx, f"{l}: {newv!r} -> {got!r} through the optimiser vector after its expression was removed")
     return spec
 
 
